@@ -50,7 +50,7 @@ def verify(src):
         r = sh(meta["demo_cmd"], wt)
         res["demo_patched"] = "fail" if r.returncode != 0 else "PASSES"
         os.remove(demo_dst)
-        c = subprocess.run([os.path.join(HERE, "bin", "klogsa"), "-repo", wt, "-prop", "all", "-no-evidence",
+        c = subprocess.run([os.environ.get("KLOGSA_BIN") or os.path.join(HERE, "bin", "klogsa"), "-repo", wt, "-prop", "all", "-no-evidence",
                             "-known", os.path.join(HERE, "known_findings.json")], env=ENV, capture_output=True, text=True)
         res["flagged_props"] = sorted(set(l.split("property=")[1].split()[0] for l in c.stdout.splitlines() if l.startswith("VIOLATION")))
         res["flag_details"] = [l.strip()[:400] for l in c.stdout.splitlines() if l.startswith("  violated") or l.startswith("  undecided")][:8]
